@@ -246,25 +246,38 @@ where
     let mut interval = tokio::time::interval(tokio::time::Duration::from_millis(
         crate::verif::flush_interval_ms(FLUSH_INTERVAL_MS),
     ));
+    // The line being read lives outside the loops: when the flush tick (or anything
+    // else) wins the select, the cancelled read_until leaves the bytes it already
+    // consumed in `buf`, and they must be kept until the rest of the line arrives.
+    let mut buf = Vec::new();
     loop {
         let mut bufs = Vec::new();
         loop {
-            let mut buf = Vec::new();
             tokio::select! {
                 _ = token.cancelled() => {
+                    if !buf.is_empty() {
+                        bufs.push(std::mem::take(&mut buf));
+                    }
                     process_bufs(&header, bufs, &compressor_client, &mut log_stream_client, true).await?;
                     return Err(MonorailError::TaskCancelled);
                 }
                 res = reader.read_until(b'\n', &mut buf) => {
                     match res {
                         Ok(0) => {
+                            // end of stream; an unterminated last line may still be pending
+                            if !buf.is_empty() {
+                                bufs.push(std::mem::take(&mut buf));
+                            }
                             process_bufs(&header, bufs, &compressor_client, &mut log_stream_client, true).await?;
                             return Ok(());
                         },
                         Ok(_n) => {
-                            bufs.push(buf);
+                            bufs.push(std::mem::take(&mut buf));
                         }
                         Err(e) => {
+                            if !buf.is_empty() {
+                                bufs.push(std::mem::take(&mut buf));
+                            }
                             process_bufs(&header, bufs, &compressor_client, &mut log_stream_client, true).await?;
                             return Err(MonorailError::from(e));
                         }
